@@ -423,6 +423,19 @@ func main() {
 				}
 				violLines = append(violLines, fmt.Sprintf("VIOLATION property=%s replay=%s", prop, rp))
 				fmt.Printf("%s %s: %s\n", ep.Pkg, ep.Run, m[0])
+			} else if so := string(out); strings.Contains(so, "\npanic: ") && strings.Contains(so, "go.etcd.io/raft/v3.") &&
+				(strings.Contains(so, "go.etcd.io/raft/v3.(*node).run") || !strings.Contains(so, "test timed out")) {
+				// a Go runtime panic inside the library (e.g. in the node.run
+				// goroutine, which no test code can recover) took the test
+				// process down: for the library that is a crash of the node
+				violations++
+				rp := filepath.Join(ed, "output.log")
+				violLines = append(violLines, fmt.Sprintf("VIOLATION property=%s replay=%s", prop, rp))
+				pl := so[strings.Index(so, "\npanic: ")+1:]
+				if i := strings.Index(pl, "\n"); i > 0 {
+					pl = pl[:i]
+				}
+				fmt.Printf("%s %s: the test process died of a panic inside go.etcd.io/raft/v3: %s\n", ep.Pkg, ep.Run, pl)
 			} else {
 				fmt.Print(tail(filterDraws(string(out)), 40))
 				infra("tests %s of %s failed without a violation line", ep.Run, ep.Pkg)
